@@ -306,7 +306,10 @@ def worker(job):
             lab, ln = layout[i]
             macsize = 16
             fl = faults_for(ln, bs, macsize, tier if (tier == 'quick' or i in data_idx[:2] + data_idx[-2:]) else 'quick')
-            glues = (False, True) if len(cfg) > 3 and i > 0 else (False,)
+            # the altered packet in one chunk with its predecessor: everywhere in quick (few targets); in thorough
+            # where either of the two is a key exchange message (their handlers are coroutines)
+            kext = (20, 21, 30, 31, 32, 33, 34)
+            glues = (False, True) if len(cfg) > 3 and i > 0 and (tier == 'quick' or lab in kext or layout[i - 1][0] in kext) else (False,)
             for fault, glue in [(f_, g_) for f_ in fl for g_ in glues]:
                 try:
                     obs = run(cfg, d, i, fault, glue=glue)
@@ -647,7 +650,7 @@ def main(tier, seed):
     rk = [c + ('rekey',) for c in cfgs if c[2] == 'none' and (tier == 'thorough' or c[1] in (None, 'hmac-sha2-256', 'hmac-sha1-etm@openssh.com'))]
     if tier == 'quick':
         rk = [c for c in rk if c[0] in ('chacha20-poly1305@openssh.com', 'aes256-gcm@openssh.com', 'aes128-ctr', 'aes192-cbc')]
-    rk += [c[:3] + ('rekey-s',) for c in rk if tier == 'thorough' or c[1] in (None, 'hmac-sha2-256')]
+    rk += [c[:3] + ('rekey-s',) for c in rk if c[1] in ((None, 'hmac-sha2-256') if tier == 'quick' else (None, 'hmac-sha2-256', 'hmac-sha1-etm@openssh.com', 'umac-64@openssh.com'))]
     acc = core.pmap(worker, core.rotate([(c, tier) for c in cfgs + rk], seed), chunksize=2)
     scfgs = [c for c in cfgs if c[2] == 'none' and (tier == 'thorough' or c[1] in (None, 'hmac-sha2-256', 'hmac-sha2-256-etm@openssh.com', 'umac-64@openssh.com'))]
     if tier == 'quick':
